@@ -68,6 +68,13 @@ struct PoliciesGetEventValueInclude {
 	static std::string getEvent(EventStruct e, int) { return e.type; }
 	static std::string getEvent(EventStruct e) { return e.type; }
 };
+// exclude-event form: the policy receives the selector first, then the listener arguments (one by value, movable)
+struct PoliciesGetEventExcl {
+	static int getEvent(int code, const std::string &) { return code / 100; }
+};
+struct PoliciesGetEventExclValue {
+	static int getEvent(int code, std::string payload) { return code / 100 + (int)payload.size() * 0; }
+};
 struct PoliciesCanContinue {
 	static bool canContinueInvoking(int, const std::string &) { return true; }
 	static bool canContinueInvoking(const Payload &) { return true; }
